@@ -177,8 +177,8 @@ package set
 //@   ensures  exists(v, mem(s, v) && mem(b, v)) ==> result
 //@   overflow checked
 //@   -- dead code found by the path canaries (proved infeasible instead of being waved through):
-//@   dead 3 : second sweep, `else if y.End in x`: y.Begin < x.Begin <= y.End means x.Begin lies in the s-interval y, which sweep 1 excluded
-//@   dead 5 : second sweep, `y == nil`: s is not empty there (the first check returned otherwise)
+//@   dead 1 : second sweep, `else if y.End in x`: y.Begin < x.Begin <= y.End means x.Begin lies in the s-interval y, which sweep 1 excluded
+//@   dead 3 : second sweep, `y == nil`: s is not empty there (the first check returned otherwise)
 //@   -- sweep 1: x over s, y over b
 //@   loop 0 invariant linked(s) && (in(x, s.nodes) || x == Tl(s))
 //@   loop 0 invariant forall(p * Node, q * Node, imp(in(p, s.nodes) && p.Begin < hi(s, x) && in(q, b.nodes), noEnd(p, q)))
